@@ -48,3 +48,39 @@ def radius(repo, reg, prop, tier, seed):
 
 plugin("C04")(radius)
 plugin("C11")(radius)
+
+
+def vtables(repo, reg, prop, tier, seed):
+    """Ground obligations on the shipped V-gene distance tables (finite data, checked exhaustively on every run)."""
+    import csv
+    checked = []
+    for name in ("vdists_alpha.csv", "vdists_beta.csv"):
+        path = os.path.join(frontend.REPO, "pyrepseq", "data", name)
+        item = {"name": f"data/{name}/ground[symmetric, zero diagonal, index = columns]", "function": None, "kind": "ground",
+                "instances": 1, "solvers": ["exhaustive check of the shipped file"], "time_s": 0.0}
+        try:
+            rows = list(csv.reader(open(path, newline="")))
+            cols = rows[0][1:]
+            idx = [r[0] for r in rows[1:]]
+            M = [[float(x) for x in r[1:]] for r in rows[1:]]
+            n = len(idx)
+            problems = []
+            if idx != cols:
+                problems.append("index differs from columns")
+            for i in range(n):
+                if M[i][i] != 0:
+                    problems.append(f"diagonal {idx[i]} = {M[i][i]}")
+                for j in range(i):
+                    if M[i][j] != M[j][i]:
+                        problems.append(f"asymmetric {idx[i]},{idx[j]}")
+            item["status"] = "discharged" if not problems else "refuted"
+            item["instances"] = n * n
+            item["detail"] = f"{n} alleles" if not problems else "; ".join(problems[:5])
+        except Exception as e:
+            item["status"] = "undecided"
+            item["detail"] = f"{type(e).__name__}: {e}"
+        checked.append(item)
+    return {"name": "vgene_tables", "checked": checked}
+
+
+plugin("C14")(vtables)
